@@ -218,6 +218,8 @@ def run_pair(ops_text, harness_bin, tag="run", timeout=1200, harness_env=None):
     env = dict(os.environ)
     env["ASAN_OPTIONS"] = "detect_leaks=0:abort_on_error=0:exitcode=77"
     env["UBSAN_OPTIONS"] = "print_stacktrace=1:halt_on_error=1:exitcode=78"
+    env["BGH_TMP"] = os.path.join(WORK, "tmp")
+    os.makedirs(env["BGH_TMP"], exist_ok=True)
     if harness_env:
         env.update(harness_env)
     with open(ops_p, "rb") as fin:
